@@ -19,6 +19,10 @@ TESTS = {
                                    functions=['tarpc/src/client.rs::RequestDispatch (through the public API)', 'tarpc/src/client/in_flight_requests.rs::complete_request (through the public API)'],
                                    bound='3 concurrent calls; all 6 answer orders; one unsolicited id derived from a live id by 6 boundary transformations at every position; optional duplicate (660 runs)',
                                    why='replay search: source of concrete failing inputs when the deductive check of the client table is undecided (e.g. a changed data representation) or fails'),
+    'client_wire_bounded': dict(file='client_wire_bounded', fn='client_wire_three_calls',
+                                functions=['tarpc/src/client.rs::RequestDispatch, Channel::call, ResponseGuard (through the public API, hand-written gated transport)'],
+                                bound='up to 3 calls x 4 fates (answered, abandoned queued, abandoned after transmission, kept) x all fate orders x a dispatch poll or not after each step x capacity 1|2 x readiness gated|not x handles dropped|kept (200832 scenarios); oracles on the wire log (C01 routing, C03 cancel rules, C10 close rules, C14 sink contract)',
+                                why='replay search: source of concrete failing inputs when the deductive check is undecided (code rewritten into a shape the contracts cannot be checked against) or fails'),
     'complete_all_bounded': dict(inrepo=True, file='client_table', fn='verif_native_complete_all_requests_bounded',
                                  functions=['tarpc/src/client/in_flight_requests.rs::complete_all_requests (+ its consuming loop)'],
                                  bound='every table of <= 3 entries over ids {0,1,2,u64::MAX} (15 tables)',
